@@ -18,4 +18,12 @@ var ByName = map[string]Rule{
 	"A-order":             RuleAOrder,
 	"dump-path":           RuleDumpPath,
 	"A-arrival":           RuleAArrival,
+	"C-posting":           RuleCPosting,
+	"C-value":             RuleCValue,
+	"J-pair":              RuleJPair,
+	"J-valuation":         RuleJValuation,
+	"C-postings":          RuleCPostings,
+	"K-daytx":             RuleKDayTx,
+	"K-insert":            RuleKInsert,
+	"K-delta":             RuleKDelta,
 }
